@@ -166,6 +166,16 @@ class PathCtx:
       ob = Obligation(name, "unsat", 0.0, "simplify", kind=kind, detail=detail)
       self.obligations.append(ob)
       return "unsat"
+    if z3.is_eq(simp) and simp.arg(0).sort() == z3.RealSort():
+      # polynomial identities: normalise the difference to a sum of monomials
+      try:
+        dd = z3.simplify(simp.arg(0) - simp.arg(1), som=True)
+        if z3.is_rational_value(dd) and dd.numerator_as_long() == 0:
+          ob = Obligation(name, "unsat", time.time() - t0, "z3-simplify(som)", kind=kind, detail=detail)
+          self.obligations.append(ob)
+          return "unsat"
+      except z3.Z3Exception:
+        pass
     s = z3.Solver()
     s.set("timeout", OBL_TIMEOUT_MS)
     for c in self.pc:
